@@ -14,6 +14,7 @@
              init     [status] "ok" | "incompatible" | "exception" | "stall"
              probe    the class is a probe class made of TLC-generated declarations (TermDeclScripts): only
                       R1 / R2 are judged on its declarations
+             cycle    what a real SyncGroup cycle read and wrote through the declared variables (R10, below)
              table    Terminal.pdos after parse_pdos; bits = what parse_pdos returned; sizes = pdo_out_sz /
                       pdo_in_sz; smregs = the simulated terminal's sync-manager registers afterwards;
                       assigned = 0x1C12 / 0x1C13 in the simulated terminal's dictionary afterwards
@@ -74,6 +75,43 @@ SignedAsUnsigned(e, d, o) ==
     /\ Len(o.fmtc) = 1 /\ o.fmtc[1] \in {66, 72, 73, 81}
     /\ SiiTypes(e, EffIdx(d), d.sub) \cap {2, 3, 4, 21} # {}
 
+(* ---- R10 transport (plain consistency: values transported unchanged): with every declared variable linked
+   to a device of a real slow SyncGroup on the segment, an input variable reads the bits of its entry in the
+   device's input area, and writing an output variable changes exactly its own bits of the device's output
+   area to the value.  What "reads" and "writes" mean is ProcVar.tla (C19), applied to the area of the sync
+   manager instead of the frame.  Judged for bits and integer formats; strings and floats are not judged.
+       cycle = [done, inimg, reads = <<[k, val]>>, writes = <<[k, val, before, after, status]>>]
+       val   = [kind "bit" | "int" | "other", b, w = 16-byte two's complement]                          *)
+PV == INSTANCE ProcVar
+SignedLetters == {98, 104, 105, 108, 113}                   \* b h i l q
+IntLetters == SignedLetters \cup {66, 72, 73, 76, 81}        \* B H I L Q
+Judgeable(r) == r.bit # NoBit \/ (Len(r.fmtc) = 1 /\ r.fmtc[1] \in IntLetters)
+AsProcVar(r) == [start |-> 0, off |-> r.byte, bit |-> r.bit,
+                 n |-> IF r.bit # NoBit THEN 1 ELSE FmtWidth(r.fmtc),
+                 s |-> IF r.bit = NoBit /\ r.fmtc[1] \in SignedLetters THEN 1 ELSE 0]
+ValWord(v) == IF v.kind = "bit" THEN PV!WFromInt(IF v.b THEN 1 ELSE 0, PV!ProcVarN) ELSE v.w
+ValKindOK(r, v) == (r.bit # NoBit) <=> (v.kind = "bit")
+ReadCode(lay, d, rd, inimg) ==
+    IF DeclVerdict(lay, d, d.res)[1] # "ok" THEN "n/a"
+    ELSE IF d.res.sm # SmIn THEN "out"
+    ELSE IF ~Judgeable(d.res) \/ rd.val.kind = "other" THEN "unjudged"
+    ELSE IF Len(inimg) # DirBytes(lay, SmIn) \/ ~PV!ProcVarInFrame(inimg, AsProcVar(d.res)) THEN "outside"
+    ELSE IF ValKindOK(d.res, rd.val) /\ PV!ProcVarGet(inimg, AsProcVar(d.res)) = ValWord(rd.val) THEN "ok"
+    ELSE "bad"
+WriteCode(lay, d, wr) ==
+    IF DeclVerdict(lay, d, d.res)[1] # "ok" \/ d.res.sm # SmOut THEN "n/a"
+    ELSE IF ~Judgeable(d.res) \/ wr.val.kind = "other" THEN "unjudged"
+    ELSE IF wr.status # "ok" THEN "raised"
+    ELSE IF Len(wr.before) # DirBytes(lay, SmOut) \/ Len(wr.after) # Len(wr.before)
+            \/ ~PV!ProcVarInFrame(wr.before, AsProcVar(d.res)) THEN "outside"
+    ELSE IF ValKindOK(d.res, wr.val) /\ wr.after = PV!ProcVarSet(wr.before, AsProcVar(d.res), ValWord(wr.val)) THEN "ok"
+    ELSE "bad"
+CycleVerdict(lay, r) ==
+    [done |-> r.cycle.done,
+     reads |-> [i \in 1 .. Len(r.cycle.reads) |->
+                  ReadCode(lay, r.decls[r.cycle.reads[i].k], r.cycle.reads[i], r.cycle.inimg)],
+     writes |-> [i \in 1 .. Len(r.cycle.writes) |-> WriteCode(lay, r.decls[r.cycle.writes[i].k], r.cycle.writes[i])]]
+
 (* a declaration that is not where the description puts it, but where the recognised alternative reading of
    the description (sm255) puts it *)
 DeclOrAlt(v, alt, d) == IF v[1] = "ok" THEN v
@@ -99,6 +137,7 @@ Judged(c, r, e, lay, alt, m, ran) ==
                   ELSE <<"free", "n/a">>],
      overlaps |-> IF ran /\ m /\ ~r.probe THEN Overlaps(r.decls) ELSE {},
      signs |-> [k \in 1 .. Len(r.decls) |-> ran /\ m /\ SignedAsUnsigned(e, r.decls[k], r.decls[k].res)],
+     cycle |-> IF ran /\ m THEN CycleVerdict(lay, r) ELSE [done |-> FALSE, reads |-> <<>>, writes |-> <<>>],
      svcs |-> [k \in 1 .. Len(r.svcs) |->
                   IF m THEN <<r.svcs[k].idx + r.svcs[k].off, r.svcs[k].sub>> \in KeySet(c) ELSE TRUE]]
 
@@ -110,7 +149,7 @@ Refusal(r) ==
      init |-> IF r.init.status = "incompatible" THEN "refused" ELSE "notrefused",
      table |-> "n/a", sizes |-> "n/a", regs |-> "n/a", assign |-> "n/a",
      decls |-> [k \in 1 .. Len(r.decls) |-> <<"free", "n/a">>], overlaps |-> {},
-     signs |-> [k \in 1 .. Len(r.decls) |-> FALSE], svcs |-> [k \in 1 .. Len(r.svcs) |-> TRUE]]
+     signs |-> [k \in 1 .. Len(r.decls) |-> FALSE], cycle |-> [done |-> FALSE, reads |-> <<>>, writes |-> <<>>], svcs |-> [k \in 1 .. Len(r.svcs) |-> TRUE]]
 Verdict(c, r, e) ==
     IF Refuses(r.cls, e.id) THEN Refusal(r)
     ELSE IF ~RunWF(c, r, e) THEN [wf |-> FALSE, matching |-> Matching(r.cls, e.id)]
